@@ -24,6 +24,11 @@ theorem call_sites_run_inline_when_full :
     Gen.compressHandlerOrder = ["strGzip", "strDeflate", "strZstd"] ∧
     Gen.compressHandlerBrotliOrder = ["strBr", "strGzip", "strDeflate", "strZstd"] := by decide
 
+/-- regenerated fact: when the queue is full `(*writer).do` runs the operation on the caller's goroutine WHATEVER the
+    operation — Reset (re-acquiring a pooled stackless writer) is an operation like Write, Flush and Close; in the queue
+    model every `do` is one call, so `append_roundtrip_any_schedule` covers it only under this fact -/
+theorem writer_fallback_is_op_independent : Gen.stacklessWriterDoUniform = true := by decide
+
 theorem kindOfName_name (k : Kind) : kindOfName k.name = some k := by cases k <;> decide
 theorem kindOfName_nil : kindOfName [] = none := by decide
 
